@@ -75,6 +75,7 @@ type Knobs struct {
 	TwoPhase        bool // registrations first, invocations later
 	PSoftSibling    int  // a soft group leaf gets a sibling whose constructor feeds that group (C11)
 	PReencode       int  // C15: probability that a function gets an alternative equivalent encoding
+	PSide           int  // a constructor / decorator body calls String, Visualize, Scope, Provide or Decorate (of an unrelated key) on the container
 	PReenter        int  // C02: probability that a constructor body calls back into the container
 	PZeroRes        int  // a single result / group member is returned as the zero value
 	PDeclIn         int  // a function gets a declared ignore-unexported parameter object (unexported fields between the exported ones)
@@ -733,6 +734,10 @@ func (g *gen) genProvide(s int) Op {
 	f.P = g.encodeParams(pl)
 	g.errAndVariadic(f)
 	g.faults(f)
+	if g.pct(g.k.PSide, "side") {
+		f.Side = g.pickStr([]string{"string", "visualize", "scope", "provide", "decorate"}, "sidek")
+		f.SideS = g.pickScope("sides")
+	}
 	if g.pct(g.k.PReenter, "reenter") {
 		// the body demands, from a random scope, its own first key or keys
 		// visible there
@@ -885,6 +890,10 @@ func (g *gen) genDecorate(s int) (Op, bool) {
 	f.R = g.encodeResults(rl, false)
 	g.errAndVariadic(f)
 	g.faults(f)
+	if g.pct(g.k.PSide, "side") {
+		f.Side = g.pickStr([]string{"string", "visualize", "scope", "provide", "decorate"}, "sidek")
+		f.SideS = g.pickScope("sides")
+	}
 	var altF *Fn
 	if g.pct(g.k.PReencode, "reenc") {
 		af := &Fn{ID: f.ID, Err: f.Err, Var: f.Var, Faults: f.Faults, Dur: f.Dur}
